@@ -223,6 +223,7 @@ def shard_fn(shard, nshards, seed, tier, exe, npairs, ncopies):
     cases, meta = [], {}
 
     def tree(nan=0.0):
+        tg.big = rng.random() < 0.25  # large containers / long strings in a quarter of the trees only (64-flag serialization of copies is costly)
         toks, _ = tg.tree()
         if nan and rng.random() < nan:
             sc = [i for i, t in enumerate(toks) if t[0] in "dD"]
